@@ -64,6 +64,11 @@ type Prop struct {
 
 	// Workers overrides the number of parallel children (default: NumCPU).
 	Workers int
+	// Units names the counter (Case.Count) that holds how many executions the
+	// cases contained when a case is a history or a group of several judged
+	// executions (calls, sessions, inputs).  Evidence then reports that number
+	// as evaluations and the number of cases separately.
+	Units string
 
 	// CaseTimeout is the wall-clock watchdog per case inside a child
 	// (default 60 s).  Its firing is inconclusive unless the property decided a
